@@ -162,19 +162,24 @@ def assemble(repo=REPO, mutate_hook=None, only_units=None, canary=False):
 
     prelude('header')
     out.append(('verus! {', None, ('glue', None)))
-    prelude('root')
-    for unit in UNITS:
-        ufns = [f for f in fns if f.unit == unit]
-        if not ufns and not any(fn.startswith(unit + '_') for fn in pfiles):
-            continue
-        out.append(('pub mod %s {' % unit, None, ('glue', None)))
-        for itm in [x for x in items if x.unit == unit]:
+    def emit_items(sel):
+        for itm in sel:
             txt = extract.find_item_text(read(os.path.join(repo, itm.src)), itm.what)
             for a in itm.attrs:
                 out.append((a, None, ('glue', None)))
             for l in txt.split('\n'):
                 out.append((l, None, ('item', itm.fid)))
             G.items.append({'item': itm.fid, 'src': itm.src, 'what': itm.what, 'sha': hashlib.sha256(txt.encode()).hexdigest()[:16]})
+
+    # items that need derive(Structural) must live at the crate root (Verus limitation); they are re-exported into their unit
+    emit_items([x for x in items if x.at == 'root'])
+    prelude('root')
+    for unit in UNITS:
+        ufns = [f for f in fns if f.unit == unit]
+        if not ufns and not any(fn.startswith(unit + '_') for fn in pfiles):
+            continue
+        out.append(('pub mod %s {' % unit, None, ('glue', None)))
+        emit_items([x for x in items if x.unit == unit and x.at != 'root'])
         prelude(unit + '_')
         cur_emit = None
         for fs in ufns:
